@@ -101,7 +101,7 @@ func c08Docs() []doc {
 	}
 	// lobs whose base64 contains / and comment-looking text, strings with brackets and quotes
 	tricky := []*rm.Value{
-		rm.BlobV([]byte{0xff, 0xff}), rm.BlobV([]byte{0xff, 0xef, 0xfe}), rm.ClobV([]byte("]}) // */")), rm.StrV("]})\"'''"), rm.StrV("/* no */ // no"),
+		rm.BlobV([]byte{0xff, 0xff}), rm.BlobV([]byte{0xff, 0xef, 0xfe}), rm.BlobV([]byte{0x00, 0xff, 0xff}), rm.BlobV([]byte{0x03, 0xff, 0xff, 0xff, 0xf0}), rm.ClobV([]byte("]}) // */")), rm.StrV("]})\"'''"), rm.StrV("/* no */ // no"),
 		rm.SymV("]"), rm.SymV("'''"), rm.StrV("'''"), rm.ClobV([]byte("'''")), rm.SymV("/*"), rm.StrV("\\"),
 	}
 	for i, t := range tricky {
